@@ -92,15 +92,18 @@ Inductive hcmd := mkHCmd {
   hc_allow_external : bool;               (* [allow_external_subcommands] *)
   hc_sub_value_name : option bytes;       (* [subcommand_value_name] *)
   hc_sub_heading : option bytes;          (* [subcommand_help_heading] *)
-  hc_template : option bytes              (* [help_template] *)
+  hc_template : option bytes;             (* [help_template] *)
+  (* round 5 *)
+  hc_flatten : bool                       (* [flatten_help]: a plain setting, not propagated *)
 }.
 #[export] Instance eta_hcmd : Settable _ := settable! mkHCmd
   <hc_name; hc_about; hc_long_about; hc_short_flag; hc_long_flag; hc_disp_ord; hc_hide; hc_version;
    hc_set; hc_gset; hc_sub_required; hc_args; hc_subs; hc_bin_name; hc_usage_name; hc_long_help_exists; hc_built;
-   hc_groups; hc_negates_reqs; hc_args_conflicts; hc_allow_external; hc_sub_value_name; hc_sub_heading; hc_template>.
+   hc_groups; hc_negates_reqs; hc_args_conflicts; hc_allow_external; hc_sub_value_name; hc_sub_heading; hc_template;
+   hc_flatten>.
 Definition hcmd_new (n : bytes) : hcmd :=
   mkHCmd n None None None None None false false hset_none hset_none false [] [] None None false false
-         [] false false false None None None.
+         [] false false false None None None false.
 
 Definition h_is_set (f : hset -> bool) (c : hcmd) : bool := f (hc_set c) || f (hc_gset c).
 
